@@ -148,7 +148,15 @@ def cases(draw, tier):
                 except instances.Unsatisfiable:
                     continue
             calls.append({"op": oi, "args": args, "body": body, "via": draw(st.sampled_from(["httpx_args", "httpx_args", "set_client"]))})
-    return {"ir": ir, "cfg": {"literal_enums": draw(st.booleans())}, "calls": calls}
+    case = {"ir": ir, "cfg": {"literal_enums": draw(st.booleans())}, "calls": calls}
+    if draw(st.integers(0, 2)) == 0:
+        # the same document with a drawn subset of parameters, bodies and responses declared once under components (keys spelled
+        # unlike the parameter names) and used by reference: the wire must not change
+        from . import c20
+
+        case["by_ref"] = {"bits": draw(st.lists(st.integers(0, 7), min_size=6, max_size=16)),
+                          "keys": draw(st.lists(st.sampled_from(c20.KEY_WORDS), min_size=12, max_size=12, unique=True))}
+    return case
 
 
 @st.composite
@@ -504,6 +512,12 @@ def run(case, ctx):
     ir = case["ir"]
     comps = docs.comp_map(ir)
     doc = docs.render(ir)
+    if case.get("by_ref"):
+        from . import c20
+
+        doc, n_moved = c20.by_reference(doc, ir, case["by_ref"]["bits"], case["by_ref"]["keys"])
+        if n_moved:
+            ctx.label("declared_under_components")
     res = sut.generate(doc, cfg=case.get("cfg") or {})
     try:
         if res.exc is not None or not res.accepted:
